@@ -279,11 +279,17 @@ func c19Run(c c19Case, st *vlib.Stats) string {
 	if err := storage.CreateDB(db); err != nil {
 		return "CreateDB failed: " + err.Error()
 	}
-	rs, err := storage.OpenRelation(db, false)
+	// with or without -disable-wal-fsync: a process exit is not a power failure
+	rs, err := storage.OpenRelation(db, len(c.Records)%2 == 0)
 	if err != nil {
 		return "OpenRelation failed: " + err.Error()
 	}
-	defer rs.VerifAbandon()
+	abandoned := false
+	defer func() {
+		if !abandoned {
+			rs.VerifAbandon()
+		}
+	}()
 	rel := &storage.Relation{}
 	var colNames []string
 	for i, ct := range c.ColTypes {
@@ -399,17 +405,38 @@ func c19Run(c c19Case, st *vlib.Stats) string {
 			rejBetween = rejBetween || (accBefore && accAfter)
 		}
 	}
-	rows, _, err := rs.Fetch(table)
-	if err != nil {
-		return "Fetch failed: " + err.Error()
-	}
-	if len(rows) != len(want) {
-		return fmt.Sprintf("table holds %d rows, expected %d (pre-existing %d + accepted records)\n  input: %q", len(rows), len(want), c.Existing, text)
-	}
-	for i := range want {
-		if !reflect.DeepEqual(rows[i].Vals, want[i]) {
-			return fmt.Sprintf("row %d is %v, expected %v\n  input: %q", i, rows[i].Vals, want[i], text)
+	compare := func(when string) string {
+		rows, _, err := rs.Fetch(table)
+		if err != nil {
+			return when + "Fetch failed: " + err.Error()
 		}
+		if len(rows) != len(want) {
+			return fmt.Sprintf("%stable holds %d rows, expected %d (pre-existing %d + accepted records)\n  input: %q", when, len(rows), len(want), c.Existing, text)
+		}
+		for i := range want {
+			if !reflect.DeepEqual(rows[i].Vals, want[i]) {
+				return fmt.Sprintf("%srow %d is %v, expected %v\n  input: %q", when, i, rows[i].Vals, want[i], text)
+			}
+		}
+		return ""
+	}
+	if msg := compare(""); msg != "" {
+		return msg
+	}
+	// the import program does not close its store, it just exits; the database is then
+	// opened by another program. The accepted records must be there.
+	rs.VerifAbandon()
+	abandoned = true
+	if err := storage.InitStorage(); err != nil {
+		return "after the importing program exited the database does not start: " + err.Error()
+	}
+	rs, err = storage.OpenRelation(db, true)
+	if err != nil {
+		return "after the importing program exited the database cannot be opened: " + err.Error()
+	}
+	abandoned = false
+	if msg := compare("after the importing program exited and the database was opened again: "); msg != "" {
+		return msg
 	}
 	b, _ := json.Marshal(c)
 	var labels []string
